@@ -371,3 +371,70 @@ Proof.
   intros Hi Hd Wn. apply pchain_parser_parse_eq; [intros x i E; exact (proj1 (Hi x i E))|exact Wn|].
   intros r E. exact (base_parse_native du rs o s r Hi Hd E).
 Qed.
+
+(* ------------------------------------------------------------------ parse_iso8601 returns objects of the native classes: BOTH backends, every string *)
+(* every value either parser model returns was built by a validating constructor: the pyo3 glue's PyDateTime / PyDate / PyTime::new for the compiled
+   parser (after the `as u8` casts), datetime / date / time for the pure-Python post-match code *)
+Definition p_native (p : IsoParse.pval) : Prop :=
+  (IsoParse.p_kind p = 1 /\ IsoParse.valid_date (IsoParse.p_y p) (IsoParse.p_m p) (IsoParse.p_d p) = true /\
+   IsoParse.valid_time (IsoParse.p_H p) (IsoParse.p_M p) (IsoParse.p_S p) (IsoParse.p_us p) = true) \/
+  (IsoParse.p_kind p = 2 /\ IsoParse.valid_date (IsoParse.p_y p) (IsoParse.p_m p) (IsoParse.p_d p) = true) \/
+  (IsoParse.p_kind p = 3 /\ IsoParse.valid_time (IsoParse.p_H p) (IsoParse.p_M p) (IsoParse.p_S p) (IsoParse.p_us p) = true).
+
+Lemma p_native_ok p : p_native p -> native_ok (R_i (I_p p)).
+Proof.
+  intros [(K & Vd & Vt)|[(K & Vd)|(K & Vt)]]; split; cbn [wf_parsed kind_ok]; auto; split; intros K'; try assumption; rewrite K in K'; discriminate.
+Qed.
+
+Lemma mk_date_native y m d p : IsoParse.mk_date y m d = Ok p -> p_native p.
+Proof. unfold IsoParse.mk_date. destruct (IsoParse.valid_date y m d) eqn:V; [|discriminate]. intros E; injection E as <-. right; left. cbn. auto. Qed.
+Lemma mk_time_native H M S us off p : IsoParse.mk_time H M S us off = Ok p -> p_native p.
+Proof. unfold IsoParse.mk_time. destruct (IsoParse.valid_time H M S us) eqn:V; [|discriminate]. intros E; injection E as <-. right; right. cbn. auto. Qed.
+Lemma mk_datetime_native y m d H M S us off p : IsoParse.mk_datetime y m d H M S us off = Ok p -> p_native p.
+Proof.
+  unfold IsoParse.mk_datetime. destruct (IsoParse.valid_date y m d && IsoParse.valid_time H M S us) eqn:V; [|discriminate].
+  apply andb_true_iff in V. intros E; injection E as <-. left. cbn. tauto.
+Qed.
+
+Theorem rs_parse_iso_native s p : IsoParse.rs_parse_iso s = Ok p -> p_native p.
+Proof.
+  unfold IsoParse.rs_parse_iso. destruct (IsoParse.rs_parse_datetime s) as [dt|]; [|discriminate].
+  destruct (IsoParse.r_has_date dt), (IsoParse.r_has_time dt); try discriminate;
+    [apply mk_datetime_native|apply mk_date_native|apply mk_time_native].
+Qed.
+
+Theorem py_parse_iso_native s p : IsoParse.py_parse_iso s = Ok p -> p_native p.
+Proof.
+  unfold IsoParse.py_parse_iso. destruct (re_match ISO_RE ISO_NGROUPS s) as [c|]; [|discriminate]. cbv zeta.
+  destruct (IsoParse.py_datepart c) as [[[[year month] day] amb]|e]; [|discriminate].
+  destruct (negb (IsoParse.has c G_ISO_time)).
+  - destruct amb; [|apply mk_date_native].
+    destruct (IsoParse.int_of_str _) as [hh|]; [|discriminate]. destruct (IsoParse.int_of_str _) as [mm|]; [|discriminate].
+    destruct (IsoParse.int_of_str _) as [ss|]; [|discriminate]. apply mk_time_native.
+  - destruct amb; [discriminate|]. destruct (IsoParse.has c G_ISO_date && negb (IsoParse.has c G_ISO_timesep)); [discriminate|].
+    unfold IsoParse.py_timepart. cbv zeta.
+    repeat match goal with |- (if ?b then Raise _ else _) = _ -> _ => destruct b; [discriminate|] end.
+    match goal with |- match ?X with _ => _ end = _ -> _ => destruct X as [off|e]; [|discriminate] end.
+    destruct (negb (IsoParse.has c G_ISO_date)); [apply mk_time_native|apply mk_datetime_native].
+Qed.
+
+Theorem iso8601_native rs : iso_native (iso8601 rs).
+Proof.
+  intros s i. destruct rs; cbn [iso8601].
+  - unfold rs_iso8601. destruct (existsb is_surrogate s); [discriminate|].
+    destruct (IsoParse.cur s =? IsoParse.ch_P).
+    + destruct (DurParse.rs_raw s); [|discriminate]. intros E; injection E as <-. split; exact I.
+    + unfold lift_p. destruct (IsoParse.rs_parse_iso s) as [p|e] eqn:E; [|discriminate]. intros H; injection H as <-.
+      apply p_native_ok. exact (rs_parse_iso_native _ _ E).
+  - unfold py_iso8601. cbv zeta. destruct (DurParse.match_duration (fold_str s)) as [m|].
+    + destruct (negb (runs_ok m)); [discriminate|]. destruct (DurParse.py_native (fold_str s)) as [[x ob]|e]; [|destruct e; discriminate].
+      intros E; injection E as <-. split; exact I.
+    + unfold lift_p. destruct (IsoParse.py_parse_iso (fold_str s)) as [p|e] eqn:E; [|discriminate]. intros H; injection H as <-.
+      apply p_native_ok. exact (py_parse_iso_native _ _ E).
+Qed.
+
+(* pendulum.parse(text, **options) = parse_full for every string, option record and backend; what remains assumed: the opaque dateutil argument returns
+   native objects, options["now"] is a datetime *)
+Theorem pchain_full_eq_all du rs o s : du_native du -> wf_now o ->
+  pchain_parser_parse rs (iso8601 rs) du s o = parse_full du rs o s.
+Proof. intros Hd Wn. exact (pchain_full_eq du rs o s (iso8601_native rs) Hd Wn). Qed.
